@@ -226,6 +226,13 @@ func (c *client) reconnecting() {
 		}()
 
 		for {
+			// a client closed by the user makes no further attempts
+			select {
+			case <-c.closeCh:
+				return
+			default:
+			}
+
 			c.Logger.Info("start reconnecting.")
 
 			err := c.reconnect()
@@ -252,7 +259,11 @@ func (c *client) reconnecting() {
 			c.Logger.Errorf("reconnect failed, err: %v", err)
 
 			// TODO: dynamic value for sleepping
-			time.Sleep(time.Second * 1)
+			select {
+			case <-c.closeCh:
+				return
+			case <-time.After(time.Second * 1):
+			}
 		}
 	}()
 
